@@ -680,6 +680,13 @@ class Frame:
 
   def augop(self, op, cur, rhs):
     name = _IBINOPS.get(op)
+    if getattr(cur, "tags", None) and cur.tags.get("numpy_owned"):
+      # `x op= y` on a NumPy array is an IN-PLACE write (ndarray.__iop__); state leaves restored by
+      # flax.serialization.from_bytes are NumPy arrays owned by the caller.
+      c = _ctx.CUR
+      c.fail(f"frame:in-place-write-into-caller-owned-state-leaf@{self.qual}", kind="frame",
+             detail=f"augmented assignment on {cur.tags.get('numpy_owned')} (a NumPy state leaf would be mutated / is read-only)")
+      raise PathEnd()
     if name and isinstance(cur, (list, dict, set)) and hasattr(cur, name):
       return getattr(cur, name)(rhs)
     if name and hasattr(cur, "_pyvc_inplace"):
